@@ -8,7 +8,7 @@ def build(d, vs, cache=None):
     """cache (one dict per session): an operator node that was built before is the SAME Python object when it occurs
     again, inside the same constraint or in a later one - the way user code names a sub-expression and uses it twice.
     An expression object is a value: using it as an operand must not change it."""
-    if cache is not None and d["f"] not in ("var", "ilit", "blit", "list"):
+    if cache is not None and d["f"] not in ("var", "ilit", "blit", "list", "iconst", "bconst"):
         import json
         key = json.dumps(d, sort_keys=True)
         if key not in cache:
@@ -23,6 +23,12 @@ def _build(d, vs, cache):
         return vs[d["id"]]
     if f == "ilit":
         return d["n"]
+    if f == "iconst":
+        from cspuz.expr import IntExpr, Op
+        return IntExpr(Op.INT_CONSTANT, [d["n"]])
+    if f == "bconst":
+        from cspuz.expr import BoolExpr, Op
+        return BoolExpr(Op.BOOL_CONSTANT, [d["b"]])
     if f == "blit":
         return d["b"]
     if f == "list":
@@ -46,6 +52,17 @@ def _build(d, vs, cache):
         return -a[0]
     if f == "not":
         return ~a[0]
+    if f in ("iadd", "isub", "iand", "ior"):
+        t = a[0]                      # (possibly an object that other constraints of the session hold as well)
+        if f == "iadd":
+            t += a[1]
+        elif f == "isub":
+            t -= a[1]
+        elif f == "iand":
+            t &= a[1]
+        else:
+            t |= a[1]
+        return t
     if f == "add":
         return a[0] + a[1]
     if f == "sub":
@@ -119,6 +136,8 @@ class Gen:
     def iatom(self, allow_lit=True):
         if self.i and (not allow_lit or self.r.random() < 0.7):
             return V(self.r.choice(self.i))
+        if not allow_lit or self.r.random() < 0.12:
+            return {"f": "iconst", "n": self.r.choice(self.lits)}        # an explicit constant NODE (not a Python int)
         return IL(self.r.choice(self.lits))
 
     def batom(self, allow_lit=True):
@@ -176,7 +195,10 @@ class Gen:
                 if not self.i:
                     return x
                 x = self.iatom(False)
-            return {"f": r.choice(["add", "sub"]), "args": [x, y]}
+            f = r.choice(["add", "sub"])
+            if not is_lit(x) and "args" in x and r.random() < 0.2:
+                f = "i" + f               # t += y / t -= y on a compound left operand
+            return {"f": f, "args": [x, y]}
         if c < 0.8:
             cnd = self.bool_expr(depth - 1)
             t, f = self.int_expr(depth - 1), self.int_expr(depth - 1)
@@ -215,6 +237,8 @@ class Gen:
             f = r.choice(["and", "or", "xor", "iff", "bne", "then", "thenf"])
             if f == "then" and is_lit(x):
                 f = "thenf"
+            if f in ("and", "or") and not is_lit(x) and "args" in x and r.random() < 0.3:
+                f = "i" + f               # t &= y / t |= y on a compound left operand
             return {"f": f, "args": [x, y]}
         if c < 0.88:
             n = r.choice([0, 1, 2, 3, 3, 4])
